@@ -79,8 +79,8 @@ type c30Graph struct {
 	out     [][]c30Edge
 	paths   []c30Path
 	pathIx  map[b6.FeatureID]int
-	isNode  []bool // graph node by the property's definition
-	onPaths []int  // occurrences on paths
+	isNode  []bool                          // graph node by the property's definition
+	onPaths []int                           // occurrences on paths
 	areas   map[b6.FeatureID][]b6.FeatureID // area -> its boundary points
 }
 
